@@ -535,7 +535,7 @@ func err1Obligations(w *World) []Ob {
 		// an error handed in never comes back as nil: a function that receives an error and returns one may replace or
 		// wrap it, but `return nil` belongs on the side where the parameter is nil (the parser-error mapper, whose
 		// blank-line → nil row is TAB-1's business, is the one named exception)
-		if fn.Parent() == nil && fn.Synthetic == "" && scopeOf(p, fn) != "cli" && fn.Signature.Results().Len() > 0 && isErrorType(fn.Signature.Results().At(fn.Signature.Results().Len()-1).Type()) && !strings.HasSuffix(fid, "nodeGenerator).handleErr") {
+		if fn.Parent() == nil && fn.Synthetic == "" && scopeOf(p, fn) != "cli" && fn.Signature.Results().Len() > 0 && isErrorType(fn.Signature.Results().At(fn.Signature.Results().Len()-1).Type()) {
 			for _, prm := range fn.Params {
 				if !isErrorType(prm.Type()) {
 					continue
@@ -554,6 +554,19 @@ func err1Obligations(w *World) []Ob {
 					for _, g := range guardsOf(r.Block()) {
 						if tv, nonNil, ok := nilTest(g.Cond, g.Pol); ok && !nonNil && (tv == ssa.Value(prm) || sameVar(tv, prm)) {
 							onNilSide = true
+						}
+						// the blank-line sentinel of the Markdown parser means "skip this row": that row of the mapping
+						// is TAB-1's business wherever the mapper lives and whatever it is called
+						cd, pol := flattenCond(g.Cond, g.Pol)
+						if pol {
+							if call, isC := cd.(*ssa.Call); isC && calleeFullName(call.Common()) == "errors.Is" && sameVar(call.Common().Args[0], prm) && globalName(call.Common().Args[1]) == "ErrBlankLine" {
+								onNilSide = true
+							}
+							if bo, isB := cd.(*ssa.BinOp); isB && bo.Op == token.EQL {
+								if (sameVar(bo.X, prm) && globalName(bo.Y) == "ErrBlankLine") || (sameVar(bo.Y, prm) && globalName(bo.X) == "ErrBlankLine") {
+									onNilSide = true
+								}
+							}
 						}
 					}
 					if !onNilSide {
